@@ -48,6 +48,7 @@ type stats struct {
 	WaitGroup         int            `json:"waitgroup_calls"`
 	Atomic            int            `json:"atomic_yields"`
 	AtomicUnwrapped   int            `json:"atomic_unwrapped"`
+	AtomicAddressed   int            `json:"atomic_yields_with_variable"`
 	Close             int            `json:"close_yields"`
 	Sleep             int            `json:"sleep"`
 	FS                int            `json:"fs_redirects"`
